@@ -678,17 +678,19 @@ static inline int safec_out_char(char character, void *buffer, size_t idx,
     (void)buffer;
     (void)idx;
     (void)maxlen;
-    if (character) {
 #ifndef __KERNEL__
-        return putchar(character);
+    /* the terminator is only sent to the buffer sink: a NUL here is output
+       (%c of 0) and is written like any other character */
+    return putchar(character);
 #else
+    if (character) {
         int rc = 0;
         rc = slprintf("%c", character);
         return rc;
-#endif
     }
     else
         return 0;
+#endif
 }
 
 #ifndef __KERNEL__
